@@ -110,7 +110,8 @@ def key_pos(pid, c):
         text = bytes.fromhex([f for f in c.payload.split() if f.startswith("x")][0][1:]).decode("utf-8", "replace")
     except Exception:
         return None
-    if "(-> [1 2] (nth 7))" in text and "(def g" in text:
+    via_callback = any(c in text for c in ("(map g", "(apply g", "(swap! a g)", "(update [1 2] 0 g)", "(g y)"))
+    if "(-> [1 2] (nth 7))" in text and "(def g" in text and via_callback:
         return "pos.macro-rebuilt.via-callback"
     return None
 
